@@ -292,6 +292,22 @@ pub fn c17(ctx: &Ctx) -> (Report, Meta) {
             texts.push(std::iter::repeat('\u{e9}').take(n).collect());
             texts.push(std::iter::repeat('\u{20ac}').take(n).collect());
         }
+        // character counts around 127 made of mixed widths (1-, 2-, 3- and 4-byte characters)
+        for k in 118..=128usize {
+            for j in 0..=10usize {
+                for wide in ['\u{e9}', '\u{20ac}', '\u{1f600}'] {
+                    let mut t: String = std::iter::repeat('a').take(k).collect();
+                    t.extend(std::iter::repeat(wide).take(j));
+                    if t.len() <= 255 {
+                        texts.push(t.clone());
+                        // the same with the wide characters first
+                        let mut u: String = std::iter::repeat(wide).take(j).collect();
+                        u.extend(std::iter::repeat('a').take(k));
+                        texts.push(u);
+                    }
+                }
+            }
+        }
         for s in &texts {
             let m = match catch(|| mk1029(s).unwrap()) {
                 Ok(m) => m,
@@ -322,6 +338,21 @@ pub fn c17(ctx: &Ctx) -> (Report, Meta) {
             vec![0x80], vec![0xBF, 0x41],
         ] {
             seqs.push(s);
+        }
+        // long texts (up to the 255-byte maximum) ending in an unfinished / malformed multi-byte character
+        for total in [3usize, 64, 127, 128, 254, 255] {
+            for tail in [vec![0xC3u8], vec![0xE2, 0x82], vec![0xE2], vec![0xF0, 0x9F, 0x98], vec![0xF0, 0x9F], vec![0xF0], vec![0x80], vec![0xC3, 0xA9], vec![0xE2, 0x82, 0xAC], vec![0xF0, 0x9F, 0x98, 0x80], vec![0xED, 0xA0, 0x80], vec![0xFF]] {
+                if tail.len() <= total {
+                    let mut v = vec![0x41u8; total - tail.len()];
+                    v.extend_from_slice(&tail);
+                    seqs.push(v.clone());
+                    // and the same defect in the middle
+                    let mut w = vec![0x41u8; (total - tail.len()) / 2];
+                    w.extend_from_slice(&tail);
+                    w.resize(total, 0x42);
+                    seqs.push(w);
+                }
+            }
         }
         for a in [0xE0u8, 0xE1, 0xED, 0xEE, 0xF0, 0xF1, 0xF4] {
             for b in (0x70..=0xC5u8).step_by(1) {
